@@ -19,7 +19,7 @@ def main():
     md_only = "--md-only" in sys.argv
     resume = "--resume" in sys.argv  # skip seeds REGRESSION.json already has a result for
     ids = [a for a in sys.argv[1:] if not a.startswith("--")] or sorted(os.path.basename(os.path.dirname(f)) for f in glob.glob(os.path.join(SEEDS, "*", "patch.diff")))
-    out_f = os.path.join(SEEDS, "REGRESSION.json")
+    out_f = os.environ.get("VERIF_REGRESS_OUT", os.path.join(SEEDS, "REGRESSION.json"))
     res = json.load(open(out_f)) if os.path.exists(out_f) else {}
     for sid in ([] if md_only else ids):
         if resume and sid in res and "rc" in res[sid]:
